@@ -24,3 +24,5 @@ import TLX.Props.Translated.QuicTls
 import TLX.Props.Translated.QuicSess2
 import TLX.Props.Translated.Main2
 import TLX.Props.Translated.Keylog
+import TLX.Props.Translated.QuicSess3
+import TLX.Props.Translated.Decrypt2
